@@ -13,7 +13,10 @@ Definition present (fx : fixes) (e : env) (k : Z) : V :=
   let ko := if k <? 0 then None else Some k in
   VL [voutcome (validate hash_impl fx e);
       voutcome (verify fx e ks);
-      voutcome (cli_verify hash_impl fx e ko)].
+      match doc e with
+      | None => VS (bs "marshal")            (* the empty object does not serialise *)
+      | Some _ => voutcome (cli_verify hash_impl fx e ko)
+      end].
 
 Definition run_c09 (args : list V) : list V :=
   match args with
